@@ -56,6 +56,12 @@ def _gen_backward_step(rng, spec, g_shape, cands, rg, dtype, retain):
     if not outs:
         return None
     inputs = rng.sample(rg, rng.randint(1, len(rg))) if rng.random() < 0.75 else None
+    if inputs is not None and all(numel(g_shape[n]) == 0 for n in inputs):
+        # a Jacobian without columns is outside the scope (DESIGN: 0-row/0-column Jacobians excluded)
+        others = [n for n in rg if numel(g_shape[n]) > 0]
+        if not others:
+            return None
+        inputs.insert(rng.randint(0, len(inputs)), rng.choice(others))
     from ..world import gen_forms
 
     return {
@@ -75,6 +81,11 @@ def generate(rng, tier, index):
     else:
         spec, g = gen_program(rng, dtype)
         roles = None
+        if rng.random() < 0.15:
+            # a 0-element parameter (e.g. the weight of Linear(0, n)): once requested, its .grad must be created
+            # (empty, of its shape) like any other
+            spec = copy.deepcopy(spec)
+            spec["leaves"].append({"name": "z0", "shape": [0], "rg": True, "vals": []})
     model = Model(spec)
     cands = [o for n in spec["nodes"] for o in n["out"] if model.values[o].rq and numel(model.values[o].shape) >= 1]
     rg = [leaf["name"] for leaf in spec["leaves"] if leaf["rg"]]
@@ -162,6 +173,8 @@ def execute(scn):
             updates.update(exp["task_updates"])
             ambiguous = exp["ambiguous"]
         requested = list(updates.keys())
+        if any(np.size(updates[n][0]) == 0 for n in requested):
+            stats["reach.zero_element_parameter_requested"] = stats.get("reach.zero_element_parameter_requested", 0) + 1
         before = world.grads()
         kept_before = list(world._keep)  # every .grad tensor object ever observed in this world (all kept alive)
         akey = json.dumps(call["agg"], sort_keys=True)
